@@ -114,6 +114,14 @@ class VTwo(_FloatOp):
         return FloatDataType(data.data * factor + addend)
 
 
+class VFive(_FloatOp):
+    """data * factor + addend + offset + gain + bias: five parameters, none with a default."""
+
+    def _process_logic(self, data, factor: float, addend: float, offset: float, gain: float, bias: float):
+        _log("VFive", factor=factor, addend=addend, offset=offset, gain=gain, bias=bias)
+        return FloatDataType(data.data * factor + addend + offset + gain + bias)
+
+
 class VCtxWrite(_FloatOp):
     """Writes context key a = data + 0.25, returns data + 1."""
 
